@@ -92,6 +92,15 @@ type GenKnobs struct {
 	// the genesis runtime (roothash.SubmitMsg).
 	RtMaxInMessages uint32 `json:"rt_max_in_messages,omitempty"`
 	RtMinInMsgFee   uint64 `json:"rt_min_in_msg_fee,omitempty"`
+	// Executor committee parameters of the genesis runtime (C11 application-level rounds); zero
+	// values keep the defaults (group min(n,3), backup group min(n,2), no stragglers, timeout 5).
+	RtGroupSize    int   `json:"rt_group_size,omitempty"`
+	RtBackupSize   int   `json:"rt_backup_size,omitempty"`
+	RtStragglers   int   `json:"rt_stragglers,omitempty"`
+	RtRoundTimeout int64 `json:"rt_round_timeout,omitempty"`
+	// RtSlashIncorrect, when not zero, is the runtime's slashing amount for incorrect results
+	// (applied after a discrepancy was resolved against a node).
+	RtSlashIncorrect uint64 `json:"rt_slash_incorrect,omitempty"`
 	// Vaults is the number of funded genesis vaults (see addGenesisVaults); VaultGas, when not zero,
 	// replaces the default vault gas costs (10000 / 5000 / 5000) by VaultGas+1..3.
 	Vaults   int    `json:"vaults,omitempty"`
@@ -407,6 +416,18 @@ func BuildWorld(k GenKnobs) (*World, error) {
 			GovernanceModel: registry.GovernanceEntity,
 			Deployments:     []*registry.VersionInfo{{Version: version.Version{Major: 0, Minor: 1, Patch: 0}}},
 		}
+		if k.RtGroupSize > 0 {
+			rt.Executor.GroupSize = uint16(k.RtGroupSize)
+		}
+		if k.RtBackupSize > 0 {
+			rt.Executor.GroupBackupSize = uint16(k.RtBackupSize)
+		}
+		if k.RtStragglers > 0 {
+			rt.Executor.AllowedStragglers = uint16(k.RtStragglers)
+		}
+		if k.RtRoundTimeout > 0 {
+			rt.Executor.RoundTimeout = k.RtRoundTimeout
+		}
 		doc.Registry.Runtimes = append(doc.Registry.Runtimes, rt)
 		rtNodes = []*node.Runtime{{ID: w.RuntimeID, Version: version.Version{Major: 0, Minor: 1, Patch: 0}}}
 		// Compute nodes are additional nodes of the entities (round robin).
@@ -442,6 +463,17 @@ func BuildWorld(k GenKnobs) (*World, error) {
 	_ = math.MaxInt64
 	w.Doc = doc
 	return w, nil
+}
+
+func runtimeStakingParams(k GenKnobs) registry.RuntimeStakingParameters {
+	p := registry.RuntimeStakingParameters{MinInMessageFee: q(k.RtMinInMsgFee)}
+	if k.RtSlashIncorrect > 0 {
+		p.Slashing = map[staking.SlashReason]staking.Slash{
+			staking.SlashRuntimeIncorrectResults: {Amount: q(k.RtSlashIncorrect)},
+		}
+		p.RewardSlashBadResultsRuntimePercent = uint8(k.RtSlashIncorrect % 101)
+	}
+	return p
 }
 
 // NodeExpiration is the expiration epoch of a node in genesis: long for the nodes that back
